@@ -162,7 +162,7 @@ def run_loop_case(case, rec):
                 continue
             if not (np.array_equal(o1[k], on[k]) and np.array_equal(a1[k], an[k])):
                 rec.violate("loop_pairing", "nstep_row_starts_from_another_observation_or_action_than_the_paired_1step_row", site,
-                            row=k, one_step=[e, ep, t], n_step=[int(v) for v in on[k][:3]], **ctx)
+                            row=k, one_step_row=[e, ep, t], n_step_row=[int(v) for v in on[k][:3]], **ctx)
                 continue
             # the steps that follow (e, ep, t) in this sub-environment, as the loop tells them to the buffers: an episode
             # ended by TERMINATION ends the window; the loop stores done = terminated only, so an episode ended by
